@@ -280,6 +280,8 @@ type sceneRun struct {
 	c     *ctx
 	s     *sceneData
 	frame []uint8 // 160*144 shade indices (4 = not a grey shade / never written); nil = not rendered
+	p     *ppu.PPU // the PPU of the last render (op next continues on it)
+	o     *oam.OAM
 }
 
 func shadeIndex(c color.RGBA) uint8 {
@@ -296,12 +298,26 @@ func shadeIndex(c color.RGBA) uint8 {
 	return 4
 }
 
-func (r *sceneRun) render() string {
+// render: a fresh PPU, two frames.  next: the scene is replaced at the frame boundary (the LCD stays on, as a
+// game does in vblank) and ONE more frame is run on the same PPU, so whatever the PPU keeps from the earlier
+// frames is still there.
+func (r *sceneRun) render() string { return r.renderOn(true) }
+
+func (r *sceneRun) renderOn(fresh bool) string {
 	return guard(func() string {
-		i := interrupts.New()
-		o := oam.New()
-		p := ppu.New(i, o, false)
-		p.WriteLCDC(r.s.regs[0] & 0x7f) // LCD off while the scene is loaded
+		if !fresh && (r.p == nil || r.s.regs[0]&0x80 == 0) {
+			return "none"
+		}
+		cycles := 17556
+		if fresh {
+			r.p = nil
+			i := interrupts.New()
+			r.o = oam.New()
+			r.p = ppu.New(i, r.o, false)
+			r.p.WriteLCDC(r.s.regs[0] & 0x7f) // LCD off while the scene is loaded
+			cycles = 17554 + 17556
+		}
+		p, o := r.p, r.o
 		for a := 0; a < 0x2000; a++ {
 			p.WriteVideoRAM(uint16(0x8000+a), r.s.vram[a])
 		}
@@ -314,7 +330,7 @@ func (r *sceneRun) render() string {
 		p.WriteOBP0(r.s.regs[6])
 		p.WriteOBP1(r.s.regs[7])
 		p.WriteLCDC(r.s.regs[0])
-		for n := 0; n < 17554+17556; n++ {
+		for n := 0; n < cycles; n++ {
 			p.EndMachineCycle()
 		}
 		fr := p.Frame()
@@ -365,6 +381,7 @@ func (r *sceneRun) do(op string) string {
 	case len(w) == 1 && w[0] == "reset":
 		r.s = defaultScene()
 		r.frame = nil
+		r.p = nil
 		out = "ok"
 	case len(w) == 3 && w[0] == "scene":
 		r.s = genScene(uint32(unhex(w[1])), unhex(w[2]))
@@ -391,6 +408,14 @@ func (r *sceneRun) do(op string) string {
 		}
 	case len(w) == 1 && w[0] == "render":
 		out = r.render()
+		if out == "crash" {
+			r.p = nil
+		}
+	case len(w) == 1 && w[0] == "next":
+		out = r.renderOn(false)
+		if out == "crash" {
+			r.p = nil
+		}
 	case len(w) == 2 && w[0] == "line":
 		y := atoi(w[1])
 		if r.frame == nil || y < 0 || y >= 144 {
@@ -539,6 +564,114 @@ func sceneGen(c *ctx) {
 			}
 		}
 	}
+	// Part 3: histories.  A second (and third) scene is rendered on the SAME PPU after the first (`next`): a new
+	// seeded scene, or the same scene with objects moved / parked (Y = 0 or >= 160) after having overlapped the
+	// last visible lines; the frame of the later scene must not depend on what was shown before.
+	nHist := 10
+	if c.thorough() {
+		nHist = 400
+	}
+	lines := func(tag string) {
+		for y := 0; y < 144; y++ {
+			r.do(fmt.Sprintf("line %d", y))
+			if r.s.lineInProperty(y) {
+				linesIn++
+			} else {
+				linesOut++
+			}
+		}
+		c.class(tag)
+	}
+	for k := 0; k < nHist; k++ {
+		r.do("reset")
+		r.do(fmt.Sprintf("scene %08x 00", uint32(c.rng.next())))
+		// some objects overlap the last visible lines in the first frame
+		var moved []int
+		for i := 0; i < 40; i++ {
+			if c.rng.chance(25) && r.s.oam[4*i+1] != 0 {
+				y := 145 + c.rng.intn(15)
+				r.do(fmt.Sprintf("oam %02x %02x", 4*i, y))
+				moved = append(moved, i)
+			}
+		}
+		r.do("render")
+		lines(fmt.Sprintf("history/first/%v", len(moved) > 0))
+		for step := 0; step < 2; step++ {
+			kind := c.rng.intn(3)
+			switch kind {
+			case 0: // a new scene altogether
+				r.do(fmt.Sprintf("scene %08x 00", uint32(c.rng.next())))
+			case 1: // park the moved objects (and a few others)
+				for i := 0; i < 40; i++ {
+					isMoved := false
+					for _, j := range moved {
+						if j == i {
+							isMoved = true
+						}
+					}
+					if isMoved || c.rng.chance(10) {
+						y := []int{0, 0, 160, 161, 200, 255}[c.rng.intn(6)]
+						r.do(fmt.Sprintf("oam %02x %02x", 4*i, y))
+					}
+				}
+			default: // move objects vertically
+				for i := 0; i < 40; i++ {
+					if c.rng.chance(40) {
+						r.do(fmt.Sprintf("oam %02x %02x", 4*i, c.rng.intn(176)))
+					}
+				}
+			}
+			r.do("next")
+			lines(fmt.Sprintf("history/next/%d/%d", kind, step))
+		}
+	}
+	c.notes["history_cases"] = nHist
+
+	// Part 4: tile-number coincidences.  0x8800 addressing (LCDC.4 = 0), object tile numbers below 0x80 and the map
+	// cells under each object holding the SAME number (so background tile 256+n meets object tile n), rows aligned.
+	nAlias := 8
+	if c.thorough() {
+		nAlias = 300
+	}
+	for k := 0; k < nAlias; k++ {
+		r.do("reset")
+		r.do(fmt.Sprintf("scene %08x 00", uint32(c.rng.next())))
+		g := r.s.regs
+		lcdc := int(g[0])
+		if k%4 != 3 {
+			lcdc &^= 0x10
+		}
+		lcdc &^= 0x04
+		lcdc |= 0x02
+		r.do(fmt.Sprintf("regs %02x %02x %02x %02x %02x %02x %02x %02x", lcdc, g[1], g[2], g[3], g[4], g[5], g[6], g[7]))
+		scx, scy := int(g[1]), int(g[2])
+		mapBase := 0x9800
+		if lcdc&0x08 != 0 {
+			mapBase = 0x9c00
+		}
+		for i := 0; i < 40; i++ {
+			y, x := int(r.s.oam[4*i]), int(r.s.oam[4*i+1])
+			if y == 0 || y >= 160 {
+				continue
+			}
+			n := int(r.s.oam[4*i+2]) & 0x7f
+			if c.rng.chance(70) && y >= 8 {
+				y -= (y + scy) % 8 // rows of the object and of the background tile coincide
+			}
+			r.do(fmt.Sprintf("oam %02x %02x%02x%02x", 4*i, y, x, n))
+			row := ((y - 16 + scy) & 0xff) >> 3
+			col := ((x - 8 + scx) & 0xff) >> 3
+			for dr := 0; dr < 2; dr++ {
+				for dc := 0; dc < 2; dc++ {
+					cell := mapBase + ((row+dr)&31)*32 + ((col + dc) & 31)
+					r.do(fmt.Sprintf("vram %04x %02x", cell, n))
+				}
+			}
+		}
+		r.do("render")
+		lines(fmt.Sprintf("alias/%d", lcdc&0x10))
+	}
+	c.notes["tile_coincidence_cases"] = nAlias
 	c.notes["scenes_in_property_flags"] = inProp
 	c.notes["scenes_out_of_property_flags"] = outProp
 	c.notes["lines_checked_against_spec"] = linesIn
